@@ -62,8 +62,11 @@ RULES = {
     "installed onnx sources: the attributes `ExternalDataInfo.__init__` initialises) are each read by deserialize_tensor from its "
     "`ExternalDataInfo` view and written back by the serializer's external branch - a key the reader ignores is a storage field that "
     "disappears in a round trip (one reviewed exemption: `basepath`, a transient loader key that onnx strips on save)",
+    "R16": "a field is written whenever it is present: in the serializer, a statement that writes from `<source>.A` sits under presence "
+    "tests of `<source>.A` only - a truthiness / `is not None` test of another attribute `<source>.B` around it makes the write of A "
+    "depend on B, so an object with A set and B empty (an overload on a node of the default domain) loses A in the proto",
 }
-FLOORS = {"R1": 100, "R2": 40, "R3": 30, "R4": 1, "R5": 40, "R6": 20, "R7": 6, "R8": 3, "R9": 3, "R10": 10, "R11": 1, "R12": 12, "R13": 2, "R14": 10, "R15": 4}
+FLOORS = {"R1": 100, "R2": 40, "R3": 30, "R4": 1, "R5": 40, "R6": 20, "R7": 6, "R8": 3, "R9": 3, "R10": 10, "R11": 1, "R12": 12, "R13": 2, "R14": 10, "R15": 4, "R16": 20}
 EXPLANATION = (
     "Types every proto expression of serde.py through parameter annotations and the parsed onnx-ml.proto schema, "
     "collects per message the fields the deserializer reads and the serializer writes (attribute access, HasField, "
@@ -1029,7 +1032,46 @@ def rule_r15(ctx):
                   how="key sets compared", construct=f"external_data key {k} unknown")
 
 
+def rule_r16(ctx):
+    n = 0
+    for f in c03.ser_funcs(ctx):
+        if isinstance(f.node, ast.Lambda) or len(f.params) < 2:
+            continue
+        sources = set(f.params[1:])
+
+        def src_attrs(e):
+            return {(x.value.id, x.attr) for x in ast.walk(e) if isinstance(x, ast.Attribute) and isinstance(x.value, ast.Name) and x.value.id in sources}
+
+        for a in own_nodes(f.node):
+            if not isinstance(a, (ast.Assign, ast.AugAssign, ast.Expr)):
+                continue
+            used = src_attrs(a)
+            if not used:
+                continue
+            p_ = getattr(a, "_parent", None)
+            child = a
+            while p_ is not None and p_ is not f.node:
+                if isinstance(p_, ast.If) and any(child is st for st in p_.body):
+                    t = p_.test
+                    g = None
+                    if isinstance(t, ast.Attribute) and isinstance(t.value, ast.Name) and t.value.id in sources:
+                        g = (t.value.id, t.attr)
+                    elif isinstance(t, ast.Compare) and len(t.ops) == 1 and isinstance(t.ops[0], (ast.IsNot, ast.NotEq)) and isinstance(t.left, ast.Attribute) \
+                            and isinstance(t.left.value, ast.Name) and t.left.value.id in sources and isinstance(t.comparators[0], ast.Constant):
+                        g = (t.left.value.id, t.left.attr)
+                    if g is not None:
+                        n += 1
+                        ctx.check("R16", f"{f.local}: `{norm(a)[:50]}` under the presence test of {g[0]}.{g[1]}", g in used, f, a,
+                                  f"`{norm(a)[:70]}` writes from {sorted('.'.join(u) for u in used)} but only runs when `{norm(t)}` holds: an object that has the one "
+                                  f"and not the other ({g[1]} empty) loses the field in the proto",
+                                  how="presence tests (truthiness / `is not None` of a source attribute) enclosing a write ⊆ the attributes the write reads",
+                                  construct=f"write of {sorted(u[1] for u in used)} guarded by presence of {g[1]}")
+                child, p_ = p_, getattr(p_, "_parent", None)
+    ctx.require(n >= 20, f"only {n} presence-guarded writes found in the serializer")
+
+
 def run(ctx):
+    rule_r16(ctx)
     rule_r14(ctx)
     rule_r13(ctx)
     rule_r12(ctx)
